@@ -200,6 +200,7 @@ func (s *storeRunner) step(r *rng, bad int) {
 		n := r.intn(5)
 		var items []string
 		var parts []string
+		var lastT *ketoapi.RelationTuple
 		for i := 0; i < n; i++ {
 			act := "insert"
 			if r.chance(2, 5) {
@@ -217,6 +218,10 @@ func (s *storeRunner) step(r *rng, bad int) {
 				parts = append(parts, fmt.Sprintf(`{"action":%q}`, act))
 			default:
 				t := stTuple(r, bad)
+				if lastT != nil && r.chance(1, 4) { // the very same relationship again in one request: rows are a multiset
+					t = lastT
+				}
+				lastT = t
 				tb, _ := json.Marshal(t)
 				items = append(items, "A "+hx(act)+" "+fmtTuple(t))
 				parts = append(parts, fmt.Sprintf(`{"action":%q,"relation_tuple":%s}`, act, tb))
@@ -229,6 +234,7 @@ func (s *storeRunner) step(r *rng, bad int) {
 		n := r.intn(5)
 		req := &rts.TransactRelationTuplesRequest{}
 		var items []string
+		var lastG *ketoapi.RelationTuple
 		for i := 0; i < n; i++ {
 			act := rts.RelationTupleDelta_ACTION_INSERT
 			as := "insert"
@@ -239,6 +245,10 @@ func (s *storeRunner) step(r *rng, bad int) {
 				act, as = rts.RelationTupleDelta_ACTION_UNSPECIFIED, "other"
 			}
 			t := stTuple(r, bad)
+			if lastG != nil && r.chance(1, 4) {
+				t = lastG
+			}
+			lastG = t
 			pt := tupleToProto(t)
 			if r.chance(bad, 300) {
 				pt.Subject = &rts.Subject{}
